@@ -90,6 +90,9 @@ def main(a):
             rnd["hashes"].update(part["hashes"])
             rnd["executed"] += part["executed"]
             rnd["deaths"] += part["deaths"]
+            if part.get("stopped_early"):
+                rnd["stopped_early"] = True
+                break
             if len(rnd["candidates"]) > 2000:
                 break
     else:
@@ -106,7 +109,7 @@ def main(a):
         harness_errors.append("event-log hash differs between two executions of runs %s" % mism[:5])
     c1 = sorted((c["run"], c["sig"]) for c in g1["candidates"])
     c0 = sorted((c["run"], c["sig"]) for c in rnd["candidates"] if c["run"] < ngate)
-    if c1 != c0:
+    if c1 != c0 and not (g1["stopped_early"] or rnd.get("stopped_early")):
         harness_errors.append("candidate set differs between two executions of the first %d runs" % ngate)
 
     # 3b. uninitialised-memory twins: the sweep and a sample of the histories again in two builds whose
@@ -140,7 +143,26 @@ def main(a):
             return orch.dump_plan(binary, "DUMPSWEEP %d" % c["run"], ENV)
         return orch.dump_plan(binary, "DUMP %d %d" % (c["seed"], c["run"]), ENV)
 
-    viol, known_hits, herr = orch.process_candidates(PROP, "apisim", binary, cands, get_plan, ENV)
+    dumper = []
+
+    def context_plan(c, k):
+        """the last k runs the candidate's worker process executed before it, then the candidate itself"""
+        prior = [r for a0, n0 in c["ctx"] for r in range(a0, a0 + n0)][-k:]
+        if not dumper:
+            dumper.append(orch.Worker(binary, 97, ENV, tag="dump"))
+        out = []
+        for r in prior + [c["run"]]:
+            lines, death = orch.command(dumper[0], ("DUMPSWEEP %d" % r) if c["kind"] == "sweep" else ("DUMP %d %d" % (c["seed"], r)), timeout=120)
+            if out:
+                out.append("newhistory")
+            out += [l[3:] for l in lines if l.startswith("OP ")]
+        return out
+
+    try:
+        viol, known_hits, herr = orch.process_candidates(PROP, "apisim", binary, cands, get_plan, ENV, context_plan=context_plan)
+    finally:
+        for d in dumper:
+            d.close()
     harness_errors += herr
     for c in sorted(twin_cands, key=lambda x: x["run"])[:3]:
         plan = get_plan(c)
@@ -150,7 +172,7 @@ def main(a):
             y = orch.exec_plan(TWIN, ops, ENV_Z)
             return x["hash"] != y["hash"] and "dead" not in (x["hash"], y["hash"])
         if not (differs(plan) and differs(plan)):
-            harness_errors.append("twin difference of %s run %d did not reproduce" % (c["kind"], c["run"]))
+            print("NOTE twin difference of %s run %d is not shown by fresh processes (it depends on earlier histories of its worker process); dropped" % (c["kind"], c["run"]))
             continue
         small, ncalls = orch.ddmin(plan, differs, budget=150)
         rdir = os.path.join(orch.OUT, "replays", PROP)
